@@ -1,5 +1,6 @@
 import AasVerif.Lemmas.Collide
 import AasVerif.Lemmas.Naming
+import AasVerif.Lemmas.NamingJson
 /-!
 # C21 — Distinct meta-model names never collide in generated code
 
@@ -202,6 +203,16 @@ def isErr : Res (List Collision) Unit → Bool
 example : ∀ t ∈ sdkTargets, isErr (verify t collidingMM) = true := by decide
 
 /-! ## Facts about the conversions -/
+
+/-- `json_model_type` on the identifier domain: for every identifier that starts with a capital letter the
+function returns normally — neither `Identifier(…)` nor its two `@ensure`s can fire — and the result has no
+`_`, no quotes and no backslash (so `<ModelType>_abstract` / `_choice` can never clash with a plain model type). -/
+theorem json_model_type_clean (t : Text) (hid : isIdent t = true) (hup : firstIsUpper t = true) :
+    ∃ r, jsonModelType t = .ok r ∧ isIdent r = true ∧ 95 ∉ r ∧ 34 ∉ r ∧ 39 ∉ r ∧ 92 ∉ r :=
+  jsonModelType_total t hid hup
+
+example : isIdent (Text.ofString "Data_type_IEC_61360") = true ∧ firstIsUpper (Text.ofString "Data_type_IEC_61360") = true ∧
+    jsonModelType (Text.ofString "Data_type_IEC_61360") = .ok (Text.ofString "DataTypeIec61360") := by decide
 
 /-- `lower_snake_case` is plain lower-casing, `upper_snake_case` plain upper-casing. -/
 theorem lowerSnake_eq (t : Text) : lowerSnake t = identR (lower t) := by
